@@ -524,7 +524,10 @@ def _project(acs):
                    "roc": enc.res(ac.get("roc")), "alt": enc.res(ac.get("alt"), 1), "tas": enc.res(ac.get("tas"), 1),
                    "roll": enc.res(ac.get("roll"), 256), "rtrk": enc.res(ac.get("rtrk"), 32), "trk50": enc.res(ac.get("trk50"), 512),
                    "gs50": enc.res(ac.get("gs50"), 1), "ias": enc.res(ac.get("ias"), 1), "hdg": enc.res(ac.get("hdg"), 512),
-                   "mach": enc.res(ac.get("mach"), 250), "rb": enc.res(ac.get("roc60baro"), 1), "ri": enc.res(ac.get("roc60ins"), 1)}}
+                   "mach": enc.res(ac.get("mach"), 250), "rb": enc.res(ac.get("roc60baro"), 1), "ri": enc.res(ac.get("roc60ins"), 1),
+                   "ver": enc.res(ac.get("ver")), "nics": enc.res(ac.get("nic_s")), "nica": enc.res(ac.get("nic_a")),
+                   "nicbc": enc.res(ac.get("nic_bc")), "nucp": enc.res(ac.get("NUCp")), "nic": enc.res(ac.get("NIC")),
+                   "nucv": enc.res(ac.get("NUCv")), "nacv": enc.res(ac.get("NACv")), "nacp": enc.res(ac.get("NACp"))}}
         out.append(e)
     out.sort(key=lambda x: x["addr"])
     return out, dup
